@@ -408,6 +408,10 @@ def build_tree(w):
         with open(os.path.join(w, p), "wb") as f:
             f.write(c)
     os.symlink("a.txt", os.path.join(w, "t/lnk"))
+    # entries whose content must never be opened: a FIFO without a writer, links to it and to an endless device
+    os.mkfifo(os.path.join(w, "t/sub/pipe"))
+    os.symlink("pipe", os.path.join(w, "t/sub/lpipe"))
+    os.symlink("/dev/zero", os.path.join(w, "t/sub/lzero"))
 
 
 def run_job(job):
